@@ -8,8 +8,6 @@ package main
 
 import (
 	"math/big"
-	"sort"
-	"strings"
 	"time"
 
 	"github.com/dappledger/AnnChain/eth/common"
@@ -80,43 +78,92 @@ func (t *tracer_IT) CaptureEnd(output []byte, gasUsed uint64, tm time.Duration, 
 	return nil
 }
 
-// recDB_IT records which addresses executed SELFDESTRUCT (attempts; the final
-// set is filtered through HasSuicided so that reverted frames do not count).
+// recDB_IT is the StateDB the EVM sees: the real StateDB plus a record of every
+// location the transaction wrote (the post-state is read back at exactly the
+// union of the locations either side wrote plus the whole pre-state) and of
+// every SELFDESTRUCT.
 type recDB_IT struct {
 	*state.StateDB
+	w        *written
 	attempts []common.Address
 }
 
+func (r *recDB_IT) CreateAccount(a common.Address) {
+	r.w.addr(address(a))
+	r.StateDB.CreateAccount(a)
+}
+
+func (r *recDB_IT) SubBalance(a common.Address, v *big.Int) {
+	r.w.addr(address(a))
+	r.StateDB.SubBalance(a, v)
+}
+
+func (r *recDB_IT) AddBalance(a common.Address, v *big.Int) {
+	r.w.addr(address(a))
+	r.StateDB.AddBalance(a, v)
+}
+
+func (r *recDB_IT) SetNonce(a common.Address, n uint64) {
+	r.w.addr(address(a))
+	r.StateDB.SetNonce(a, n)
+}
+
+func (r *recDB_IT) SetCode(a common.Address, c []byte) {
+	r.w.addr(address(a))
+	r.StateDB.SetCode(a, c)
+}
+
+func (r *recDB_IT) SetState(a common.Address, k, v common.Hash) {
+	r.w.slot(address(a), word(k))
+	r.StateDB.SetState(a, k, v)
+}
+
 func (r *recDB_IT) Suicide(a common.Address) bool {
+	r.w.addr(address(a))
 	r.attempts = append(r.attempts, a)
 	return r.StateDB.Suicide(a)
 }
 
-func addr_IT(a string) common.Address { return common.BytesToAddress(unhex(a)) }
+// base_IT: a committed pre-state without contract code (code is installed per
+// case).  Never written again after its construction.
+type base_IT struct {
+	db   state.Database
+	root common.Hash
+}
 
-func buildState_IT(pre []account) (*state.StateDB, error) {
+type sideCtx_IT struct {
+	bases map[string]*base_IT
+}
+
+func (c *sideCtx_IT) base(k *txCase) (*base_IT, error) {
+	key := k.baseKey()
+	if b, ok := c.bases[key]; ok {
+		return b, nil
+	}
 	db := state.NewDatabase(ethdb.NewMemDatabase())
 	sdb, err := state.New(common.Hash{}, db)
 	if err != nil {
 		return nil, err
 	}
-	for _, a := range pre {
-		ad := addr_IT(a.Addr)
+	for _, a := range k.Pre {
+		ad := common.Address(a.Addr)
 		sdb.CreateAccount(ad)
 		sdb.SetNonce(ad, a.Nonce)
 		sdb.SetBalance(ad, new(big.Int).SetUint64(a.Balance))
-		if len(a.Code) > 0 {
-			sdb.SetCode(ad, unhex(a.Code))
-		}
-		for _, kv := range a.Storage {
-			sdb.SetState(ad, common.BytesToHash(unhex(kv[0])), common.BytesToHash(unhex(kv[1])))
+		for _, s := range a.Storage {
+			sdb.SetState(ad, common.Hash(s.Key), common.Hash(s.Val))
 		}
 	}
 	root, err := sdb.Commit(false)
 	if err != nil {
 		return nil, err
 	}
-	return state.New(root, db)
+	if c.bases == nil || len(c.bases) > 256 {
+		c.bases = map[string]*base_IT{}
+	}
+	b := &base_IT{db, root}
+	c.bases[key] = b
+	return b, nil
 }
 
 var revertErr_IT error
@@ -125,17 +172,11 @@ var revertErr_IT error
 // that the class of an outcome never depends on an error message text.
 func calibrate_IT() {
 	k := &txCase{
-		Pre:   []account{{Addr: hexAddr(addrOrigin), Balance: 1}, {Addr: hexAddr(addrA), Balance: 1, Nonce: 1, Code: "60006000fd"}},
-		To:    hexAddr(addrA),
-		Input: "",
+		Pre: []account{{Addr: addrOrigin, Balance: 1}, {Addr: addrA, Balance: 1, Nonce: 1, Code: []byte{0x60, 0, 0x60, 0, 0xfd}}},
+		To:  addrA,
 	}
-	sdb, err := buildState_IT(k.Pre)
-	if err != nil {
-		return
-	}
-	evm := vm.NewEVM(context_IT(k), sdb, chainConfig_IT(k.Mode), vmConfig_IT(nil))
-	_, _, err = evm.Call(vm.AccountRef(addr_IT(k.Origin())), addr_IT(k.To), nil, ampleGas, new(big.Int))
-	revertErr_IT = err
+	r := start_IT(&sideCtx_IT{}, k, workLimitDefault)
+	revertErr_IT = r.err
 }
 
 func context_IT(k *txCase) vm.Context {
@@ -150,9 +191,9 @@ func context_IT(k *txCase) vm.Context {
 		GetHash: func(n uint64) common.Hash {
 			return common.BytesToHash(crypto.Keccak256([]byte(new(big.Int).SetUint64(n).String())))
 		},
-		Origin:      addr_IT(k.Origin()),
+		Origin:      common.Address(addrOrigin),
 		GasPrice:    new(big.Int),
-		Coinbase:    addr_IT(hexAddr(addrCoinbase)),
+		Coinbase:    common.Address(addrCoinbase),
 		GasLimit:    ctxGasLimit,
 		BlockNumber: new(big.Int).SetUint64(ctxBlockNumber),
 		Time:        new(big.Int).SetUint64(ctxTime),
@@ -160,29 +201,52 @@ func context_IT(k *txCase) vm.Context {
 	}
 }
 
-// exec_IT runs the transaction and returns the canonical outcome record.
-func exec_IT(k *txCase, workLimit uint64) *outcome {
-	out := &outcome{}
+// run_IT is a transaction that has been executed but whose post-state has not
+// been read yet.
+type run_IT struct {
+	out *outcome
+	sdb *recDB_IT
+	err error
+}
+
+// start_IT executes the transaction.
+func start_IT(c *sideCtx_IT, k *txCase, workLimit uint64) *run_IT {
+	out := &outcome{w: newWritten()}
 	out.Meter.Limit = workLimit
-	base, err := buildState_IT(k.Pre)
+	r := &run_IT{out: out}
+	b, err := c.base(k)
+	var inner *state.StateDB
+	if err == nil {
+		inner, err = state.New(b.root, b.db)
+	}
 	if err != nil {
 		out.Class = "harness-error: " + err.Error()
-		return out
+		return r
 	}
-	sdb := &recDB_IT{StateDB: base}
+	// what earlier transactions of the block did: deploy the code, bump the sender's nonce
+	for _, a := range k.Pre {
+		if len(a.Code) > 0 {
+			inner.SetCode(common.Address(a.Addr), a.Code)
+		}
+	}
+	origin := common.Address(addrOrigin)
+	if !k.Create {
+		inner.SetNonce(origin, inner.GetNonce(origin)+1)
+	}
+	inner.Finalise(true)
+
+	sdb := &recDB_IT{StateDB: inner, w: out.w}
+	r.sdb = sdb
 	tr := &tracer_IT{m: &out.Meter}
 	evm := vm.NewEVM(context_IT(k), sdb, chainConfig_IT(k.Mode), vmConfig_IT(tr))
-	origin := addr_IT(k.Origin())
 	value := new(big.Int).SetUint64(k.Value)
 	var ret []byte
-	var created common.Address
 	if k.Create {
-		ret, created, _, err = evm.Create(vm.AccountRef(origin), unhex(k.Input), ampleGas, value)
-		_ = created
+		ret, _, _, err = evm.Create(vm.AccountRef(origin), k.Input, ampleGas, value)
 	} else {
-		sdb.SetNonce(origin, sdb.GetNonce(origin)+1)
-		ret, _, err = evm.Call(vm.AccountRef(origin), addr_IT(k.To), unhex(k.Input), ampleGas, value)
+		ret, _, err = evm.Call(vm.AccountRef(origin), common.Address(k.To), k.Input, ampleGas, value)
 	}
+	r.err = err
 	switch {
 	case err == nil:
 		out.Class = "success"
@@ -192,69 +256,74 @@ func exec_IT(k *txCase, workLimit uint64) *outcome {
 		out.Class = "failure"
 		out.ErrText = err.Error() // informational only, never compared
 	}
-	out.Ret = hexs(ret)
+	out.Ret = string(ret)
 
 	// logs
-	var lb strings.Builder
+	var lb []byte
 	for _, l := range sdb.Logs() {
-		lb.WriteString(hexs(l.Address[:]))
-		lb.WriteString("[")
-		for i, t := range l.Topics {
-			if i > 0 {
-				lb.WriteString(",")
-			}
-			lb.WriteString(hexs(t[:]))
+		lb = append(lb, l.Address[:]...)
+		lb = append(lb, byte(len(l.Topics)))
+		for _, t := range l.Topics {
+			lb = append(lb, t[:]...)
 		}
-		lb.WriteString("]")
-		lb.WriteString(hexs(l.Data))
-		lb.WriteString(";")
+		lb = appendLen(lb, len(l.Data))
+		lb = append(lb, l.Data...)
 		out.NLogs++
 	}
-	out.Logs = lb.String()
+	out.Logs = string(lb)
 
-	// self-destruct set
+	// self-destruct set (before the end-of-transaction clean-up removes the accounts)
 	seen := map[common.Address]bool{}
-	var sd []string
 	for _, a := range sdb.attempts {
 		if !seen[a] && sdb.HasSuicided(a) {
-			sd = append(sd, hexs(a[:]))
+			out.suicided = append(out.suicided, address(a))
 		}
 		seen[a] = true
 	}
-	sort.Strings(sd)
-	out.Suicides = strings.Join(sd, ",")
+	sortAddrs(out.suicided)
+	var sd []byte
+	for _, a := range out.suicided {
+		sd = append(sd, a[:]...)
+	}
+	out.Suicides = string(sd)
+	return r
+}
 
-	// post-state: what a block commit would persist (empty accounts deleted)
-	if _, err := sdb.Commit(true); err != nil {
-		out.State = "commit-error: " + err.Error()
-		return out
+// finish applies the end-of-transaction clean-up (self-destructed and touched
+// empty accounts disappear, as in a block) and reads the post-state at the given
+// locations.
+func (r *run_IT) finish(locs *written) {
+	out, sdb := r.out, r.sdb
+	if sdb == nil {
+		return
 	}
-	d := sdb.RawDump()
-	addrs := make([]string, 0, len(d.Accounts))
-	for a := range d.Accounts {
-		addrs = append(addrs, a)
-	}
-	sort.Strings(addrs)
-	var sb, nb strings.Builder // nb: the same without code bytes (for counting distinct outcomes)
-	for _, a := range addrs {
-		acc := d.Accounts[a]
-		keys := make([]string, 0, len(acc.Storage))
-		for s := range acc.Storage {
-			keys = append(keys, s)
+	sdb.StateDB.Finalise(true)
+	var sb []byte
+	for _, a := range locs.sortedAddrs() {
+		ad := common.Address(a)
+		if !sdb.Exist(ad) {
+			continue
 		}
-		sort.Strings(keys)
-		var st strings.Builder
-		for _, s := range keys {
-			st.WriteString(s)
-			st.WriteString("=")
-			st.WriteString(acc.Storage[s])
-			st.WriteString(",")
+		acc := acctOut{Addr: a, Nonce: sdb.GetNonce(ad), Balance: sdb.GetBalance(ad).String(), Code: string(sdb.GetCode(ad))}
+		var st []byte
+		for _, k := range locs.sortedSlots(a) {
+			v := sdb.GetState(ad, common.Hash(k))
+			if v != (common.Hash{}) {
+				st = append(st, k[:]...)
+				st = append(st, v[:]...)
+				acc.nslots++
+			}
 		}
-		out.accts = append(out.accts, acctOut{a, utoa(acc.Nonce), acc.Balance, acc.Code, st.String()})
-		sb.WriteString(a + " nonce=" + utoa(acc.Nonce) + " balance=" + acc.Balance + " code=" + acc.Code + " storage={" + st.String() + "}\n")
-		nb.WriteString(a + " " + utoa(acc.Nonce) + " " + acc.Balance + " " + utoa(uint64(len(acc.Code))) + " {" + st.String() + "}\n")
+		acc.Storage = string(st)
+		out.accts = append(out.accts, acc)
+		sb = append(sb, a[:]...)
+		sb = appendLen(sb, int(acc.Nonce))
+		sb = appendLen(sb, len(acc.Balance))
+		sb = append(sb, acc.Balance...)
+		sb = appendLen(sb, len(acc.Code))
+		sb = append(sb, acc.Code...)
+		sb = appendLen(sb, len(st))
+		sb = append(sb, st...)
 	}
-	out.State = sb.String()
-	out.stateNoCode = nb.String()
-	return out
+	out.State = string(sb)
 }
